@@ -82,9 +82,9 @@ PROPS.update({
     ),
     "C18": dict(
         v_units=["prm"], level="proof",
-        explanation="Verus proves on the real PRM code: roadmap invariant rm_graph (adjacency in range, no self-links, no duplicates, symmetric), rm_valid, rm_checked and rm_edges_le are preserved by construct_roadmap; the roadmap states are exactly the valid samples drawn, in order (ghost log); every link satisfies dist < radius and check_motion (link_list); a repeated construct_roadmap and set_problem_definition / solve leave states and adjacency unchanged; setup clears. Query soundness: the BFS parent map is a forest rooted at checked start connections whose edges are roadmap edges (pm_ok), the goal index satisfies the goal, and the returned path is start + that chain.",
+        explanation="Verus proves on the real PRM code: roadmap invariant rm_graph (adjacency in range, no self-links, no duplicates, symmetric), rm_valid, rm_checked and rm_edges_le are preserved by construct_roadmap; the roadmap states are exactly the valid samples drawn, in order (ghost log); every link satisfies dist < radius and check_motion (link_list); a repeated construct_roadmap and set_problem_definition / solve leave states and adjacency unchanged; setup clears. Query soundness: the BFS parent map is a forest rooted at checked start connections whose edges are roadmap edges (pm_ok), the goal index satisfies the goal, and the returned path is start + that chain. Query completeness: start connections and goal milestones are exactly the filtered index sets, every finished BFS node is not a goal and has all its neighbours visited, visited = queued or finished; hence `NoSolutionFound` is returned only if no milestone satisfying the goal is reachable from a start connection by roadmap edges (no_reachable_goal, proved by induction over walks).",
         assumptions=COMMON_ASSUME + ["set_problem_definition is called with a problem over an equal space (explicit precondition)"],
-        not_covered=["query completeness (NoSolutionFound only if no goal milestone is reachable) and hop-minimality (fewest milestones): the BFS closure / level invariants are not yet discharged"],
+        not_covered=["hop-minimality (the returned path visits the fewest milestones possible): the BFS level-monotone queue invariant is not discharged"],
     ),
 })
 
